@@ -75,12 +75,24 @@ func vaSprint(v *VM, va []Value) string {
 	return strings.Join(res, " ")
 }
 
+// vaSprintNoLn formats like fmt.Sprint: a space is added between two operands when neither is a string.
+func vaSprintNoLn(v *VM, va []Value) string {
+	var sb strings.Builder
+	for i, a := range va {
+		if i > 0 && a.t != TypeString && va[i-1].t != TypeString {
+			sb.WriteByte(' ')
+		}
+		sb.WriteString(sprint(v, a))
+	}
+	return sb.String()
+}
+
 func loadFmt(g *lookup) {
 	g.Set("fmt.Sprint", NewFunc(1, 1, func(v *VM, args []Value, vargs ...Value) []Value {
-		return []Value{String(vaSprint(v, vargs))}
+		return []Value{String(vaSprintNoLn(v, vargs))}
 	}))
 	g.Set("fmt.Print", NewFunc(1, 0, func(v *VM, args []Value, vargs ...Value) []Value {
-		fmt.Fprint(v.stdout, vaSprint(v, vargs))
+		fmt.Fprint(v.stdout, vaSprintNoLn(v, vargs))
 		return nil
 	}))
 	g.Set("fmt.Println", NewFunc(1, 0, func(v *VM, args []Value, vargs ...Value) []Value {
